@@ -362,6 +362,20 @@ add("selector_clamp", "h_tree.c", "h_selector_clamp", {"C06": "quick", "C05": "q
     bounds="PRODUCTION constants; declared selector count symbolic 1..32767; the bound retrieve() applies is compared with ceil((MAX_BLOCK_SIZE+1)/50)",
     assumptions=["retrieve() resumed with the last table complete and a first group selecting an unusable (oversubscribed) table, so it returns at once"])
 
+# ------------------------------------------------------------------------------- C20: length-limited optimal prefix codes
+for _L, _A, _tier, _to in ((3, 3, "quick", 900), (3, 4, "quick", 1200), (3, 5, "thorough", 3000), (4, 4, "thorough", 3000), (4, 5, "thorough", 3000)):
+    add("assign_opt_L%d_A%d" % (_L, _A), "h_prefix.c", "h_assign_opt", {"C20": _tier, "C02": _tier}, defines=["-DVERIF_MAX_CODE_LENGTH=%d" % _L, "-DAS=%d" % _A],
+        cbmc=["--unwind", str(_A + 2), "--unwindset", "package_merge.0:%d,package_merge.1:%d,package_merge.2:%d,assign_codes.4:%d,assign_codes.2:%d,assign_codes.6:%d"
+              % (_L + 2, (2 << _L) + 2, _A + 1, _L + 2, _L + 2, _L + 2)],
+        backend="kissat", timeout=_to, mem_gb=10, extra_src=["crctab.c"],
+        functions=["src/encode.c:assign_codes", "src/encode.c:package_merge", "src/encode.c:sort_alphabet"],
+        witnesses=["competitor_considered"] + (["shorter_competitor_considered", "length_limit_reached"] if _A > _L else []),
+        bounds="SCALED build: MAX_CODE_LENGTH=%d (production 20); alphabet of %d symbols with symbolic frequencies 0..15; the competitor code is a second symbolic length vector (all complete prefix codes "
+               "with the same length limit are covered by the one query)" % (_L, _A),
+        assumptions=["scaled code-length limit through the guarded hook; the algorithm text is the production text",
+                     "the explicit-stack loop of package_merge() is unwound 2^(L+1)+2 times (unwinding assertion proved)"],
+        outside=["production limit 20 and alphabets above %d symbols (27 GB / no verdict)" % _A, "make_code_lengths() (the clustering trees) and the choice of tables per group"])
+
 # ------------------------------------------------------------------------------- expand.c scheduler: rely/guarantee steps (conservation)
 RGX_ASM = ["codec entry points replaced by stubs returning any result their interface allows; heap helpers replaced by a bag with correct head extraction (real helpers: heap_ops)",
            "RG: at every lock acquisition counters, queue sizes and the parser token are arbitrary subject to INV of h_expand_rg.c (rely); C12 assumed",
